@@ -11,24 +11,29 @@ from pipeline import Pipeline, Gen
 import verifkit as vk
 
 
-def C(who, id, chain=1, target=1, payload=1, mod=False, mev=False, as_=None, via=None):
+def C(who, id, chain=1, target=1, payload=1, mod=False, mev=False, as_=None, via=None, sp="bare"):
     via = via or ("tx" if who <= 2 else "wasm")
     return {"act": "Create", "args": {"who": who, "as": who if as_ is None else as_, "via": via, "id": id, "chain": chain,
-                                      "target": target, "payload": payload, "mod": mod, "mev": mev, "pg": 0}}
+                                      "target": target, "payload": payload, "sp": sp, "mod": mod, "mev": mev, "pg": 0}}
 
 
-def X(who, id, pg=0, as_=None, via=None):
+def X(who, id, pg=0, as_=None, via=None, sp="bare"):
     via = via or ("tx" if who <= 2 else "wasm")
     return {"act": "Execute", "args": {"who": who, "as": who if as_ is None else as_, "via": via, "id": id, "chain": 0,
-                                       "target": 0, "payload": 0, "mod": False, "mev": False, "pg": pg}}
+                                       "target": 0, "payload": 0, "sp": sp, "mod": False, "mev": False, "pg": pg}}
+
+
+SPELLINGS = ("bare", "0x", "0X", "odd", "upper", "empty")
 
 
 class C17(Pipeline):
     pid = "C17"
     mc = [("Scheduler_mc", "Scheduler_mc", ("quick", "thorough")),
+          ("Scheduler_mc", "Scheduler_mc_spell", ("thorough",)),
           ("Scheduler_mc", "Scheduler_mc_full", ("thorough",))]
-    gens = [Gen("SchedulerGen", "SchedulerGen_cover", "bfs", tiers=("quick", "thorough"), timeout=300),
-            Gen("SchedulerGen", "SchedulerGen_sim", "simulate", num=250, depth=14, tiers=("quick",), timeout=300),
+    gens = [Gen("SchedulerGen", "SchedulerGen_cover", "bfs", tiers=("quick",), timeout=300, cap=1700),
+            Gen("SchedulerGen", "SchedulerGen_cover", "bfs", tiers=("thorough",), timeout=300),
+            Gen("SchedulerGen", "SchedulerGen_sim", "simulate", num=200, depth=14, tiers=("quick",), timeout=300),
             Gen("SchedulerGen", "SchedulerGen_sim", "simulate", num=2500, depth=14, tiers=("thorough",), timeout=1200)]
     driver_pkg = "drivers/scheduler"
     driver_test = "TestDriveScheduler"
@@ -42,10 +47,17 @@ class C17(Pipeline):
         "observation of the turnstone queues: messages whose id was not in the queue before the request's block; no pigeon signs or attests, so nothing leaves the queues (a disappearing message is reported by the ExactlyOneCall monitor)",
         "x/scheduler has no activity check on the execution path: a job for the added-but-inactive chain op-main is executed and its call is queued with an empty turnstone id; the model follows the code here, the property text does not cover it",
         "job ids, contract addresses and payloads are drawn from small fixed sets (3 ids + one id failing validation, 2 contract addresses, 2 stored payloads + one caller payload + one non-JSON caller payload); ABI bytes of the job definition are not varied",
+        "the hex of a payload document is written in six spellings (bare even-length lower case, 0x prefix, 0X prefix, odd number of digits, upper case digits, empty string), for the stored payload of a job and for the caller's payload of a MsgExecuteJob (the wasm bindings hex-encode raw bytes themselves); what a spelling DENOTES is fixed by go-ethereum's common.FromHex, the decoding x/evm applies on the pinned tree: the driver applies it to the hexPayload string it reads back from the STORED job record and the monitors compare the queued call's payload bytes with that",
     ]
 
     def extra_histories(self, tier):
-        return [
+        sps = [
+            # every spelling of the stored payload of a fixed and of a modifiable job, executed by owner, stranger and contract;
+            # every spelling of the caller's payload on the modifiable one
+            [C(1, 1, chain=2, sp=sp), C(2, 2, chain=1, payload=2, mod=True, sp=sp), X(1, 1), X(2, 1), X(2, 2), X(1, 2), X(3, 2, pg=1),
+             X(3, 2, pg=1, via="legacy")] + [X(1, 2, pg=1, sp=q) for q in SPELLINGS] + [X(2, 1, pg=1, sp=sp), C(3, 3, chain=2, target=2, payload=2, sp=sp), X(3, 3, pg=1), X(1, 3)]
+            for sp in SPELLINGS]
+        return sps + [
             # modifiable job on the chain with the stale valset: first call brings the valset update, later ones do not
             [C(1, 1, mod=True), C(2, 1, chain=2), X(2, 1), X(2, 1, pg=1), X(3, 1, pg=1), X(3, 1, pg=1, via="legacy"), X(3, 1, pg=0),
              X(1, 1, pg=2), X(1, 2), X(2, 1, as_=1), X(3, 1, pg=1, as_=1), X(1, 1)],
@@ -90,13 +102,28 @@ class C17(Pipeline):
         if {e["args"]["who"] for e in okx} != {1, 2, 3} or {e["args"]["pg"] for e in okx} != {0, 1}:
             raise vk.Broken("successful executions do not cover all callers / payload modes: %s %s" % ({e["args"]["who"] for e in okx}, {e["args"]["pg"] for e in okx}))
 
+    def spelling_coverage(self, events):
+        """(stored spelling, caller spelling or '-') of the successful executions."""
+        cov = {}
+        for e in events:
+            if e["act"] == "Execute" and e.get("res") == "ok":
+                j = [x for x in e["obs"]["jobs"] if x["id"] == e["args"]["id"]]
+                if j:
+                    k = "%s/%s" % (j[0]["sp"], e["args"]["sp"] if e["args"]["pg"] == 1 and e["args"]["via"] == "tx" else "-")
+                    cov[k] = cov.get(k, 0) + 1
+        return cov
+
     def output_coverage(self, events):
         """Coverage conditions on what the code produced; only enforced on a trace without monitor failures."""
         calls = [m for e in events for m in e["obs"]["added"] if m["type"] == "slc"]
         if not calls or not any(m["type"] == "valset" for e in events for m in e["obs"]["added"]):
             return "no logic call / no just-in-time valset update observed in any turnstone queue"
-        if not {m["sfx"] for m in calls} >= {1, 2, 3} or not {m["body"] for m in calls} >= {0, 1, 2}:
+        if not {m["sfx"] for m in calls} >= {1, 2, 3} or not {m["body"] for m in calls} >= {0, 1, 2, 100, 101, 102, 1000}:
             return "observed calls do not cover all callers / payloads: %s %s" % ({m["sfx"] for m in calls}, {m["body"] for m in calls})
+        cov = self.spelling_coverage(events)
+        need = {"%s/-" % sp for sp in SPELLINGS} | {"%s/%s" % (a, b) for a in ("bare", "0x") for b in SPELLINGS}
+        if not need <= set(cov):
+            return "successful executions do not cover the payload spellings: missing %s" % sorted(need - set(cov))
         return None
 
     def extra_coverage(self, tier):
@@ -106,7 +133,7 @@ class C17(Pipeline):
             if e["act"] != "Init":
                 k = "%s/%s:%s" % (e["act"], e["args"]["via"], e.get("res"))
                 vias[k] = vias.get(k, 0) + 1
-        return {"requests_by_path": vias,
+        return {"requests_by_path": vias, "executions_by_stored_spelling/caller_spelling": self.spelling_coverage(ev),
                 "queued_messages_observed": {t: sum(1 for e in ev for m in e["obs"]["added"] if m["type"] == t) for t in ("slc", "valset")}}
 
     validate_chunks = 4
@@ -245,6 +272,18 @@ class C17(Pipeline):
             evs = copy.deepcopy(byh[h6])
             evs[k6]["res"], evs[k6]["cs"], evs[k6]["code"] = "ok", "", 0
             jobs["forged_duplicate_rejected"] = (evs, lambda v: any(n == "C17.IdUnique" for n, _, _ in v.monfail))
+        # 7. the call of a job whose stored payload is spelled with a prefix / odd length recorded with no calldata
+        h7, k7 = find(lambda e, pre: e["act"] == "Execute" and e["res"] == "ok" and e["args"]["pg"] == 0 and len(slc(e)) == 1
+                      and any(j["id"] == e["args"]["id"] and j["sp"] in ("0x", "0X", "odd") for j in e["obs"]["jobs"]))
+        if h7 is None:
+            r = missing("no successful execution of a job with a prefixed / odd stored payload recorded")
+            if r:
+                return r
+        else:
+            evs = copy.deepcopy(byh[h7])
+            for m in slc(evs[k7]):
+                m["body"], m["blen"] = 1000, 0
+            jobs["dropped_calldata_rejected"] = (evs, lambda v: any(n == "C17.CallIsStoredCall" for n, _, _ in v.monfail))
         if not jobs:
             return {"ok": True, "skipped": skipped}
         t0 = time.time()
